@@ -110,7 +110,11 @@ def sum_of_2d_modes(modes, weights):
 
     """
     modes = np.asarray(modes)
-    weights = np.asarray(weights).astype(modes.dtype)
+    weights = np.asarray(weights)
+    if modes.dtype.kind in 'fc':
+        # keep reduced precision modes from being promoted by the weights;
+        # the weights must not be truncated to integer or boolean modes
+        weights = weights.astype(modes.dtype)
 
     # dot product of the 0th dim of modes and weights => weighted sum
     return np.tensordot(modes, weights, axes=(0, 0))
